@@ -43,7 +43,18 @@ def run(rep, prog, tier):
 
 
 # ------------------------------------------------------------------------------------------------ which end of a sorted collection
+def _norm_each(text):
+    """[x for x in C] / (x for x in C) rendered as EACH($k in C;$k) is the collection C in order"""
+    for _ in range(4):
+        new = re.sub(r'EACH\((\$[\d.]+) in ((?:[^;()]|\([^()]*\))+);\1\)', r'list(\2)', text)
+        if new == text:
+            break
+        text = new
+    return text
+
+
 def _parse(text):
+    text = _norm_each(text)
     try:
         return ast.parse(re.sub(r'\$(\d+)(?:\.(\d+))?', lambda m: 'B_%s_%s' % (m.group(1), m.group(2) or ''), text), mode='eval').body
     except SyntaxError:
@@ -198,13 +209,16 @@ def check_recency(rep, prog):
     a, b = lt.params[0], lt.params[1]
     for s in Interp(prog, Scenario(inline=noinline)).run(lt):
         r = _strip(render(s.ret))
-        rep.check(r in ('%s.created < %s.created' % (a, b), '%s.created > %s.created' % (b, a)), 'C16.5', 'PGPSignature.__lt__', 'orders by %s' % r,
+        rep.check(r in ('%s.created < %s.created' % (a, b), '%s.created > %s.created' % (b, a), 'operator.lt(%s.created, %s.created)' % (a, b),
+                        'operator.gt(%s.created, %s.created)' % (b, a)), 'C16.5', 'PGPSignature.__lt__', 'orders by %s' % r,
                   'signature collections are ordered by creation time (premise of the recency rule)', where=lt.where)
     ins = prog.method('pgpy.types', 'SorteDeque', 'insort')
     me, item = ins.params[0], ins.params[1]
     for s in Interp(prog, Scenario(inline=noinline)).run(ins):
-        calls = [(c[0], c[1]) for c in s.calls]
-        pos = ['bisect.%s(%s, %s)' % (f, me, item) for f in ('bisect_left', 'bisect_right', 'bisect')]
+        calls = [(c[0], [a.replace('--', '') for a in c[1]]) for c in s.calls]
+        # the position: a bisection of the deque itself for the new item (optionally over the explicit full range)
+        pos = [('%s(%s)' % (f, ', '.join(a))) for f, a in calls if f in ('bisect.bisect_left', 'bisect.bisect_right', 'bisect.bisect') and
+               a[:2] == [me, item] and a[2:] in ([], ['0'], ['0', 'len(%s)' % me])]
         mut = [(f, a) for f, a in calls if f.startswith(me + '.') or f.startswith('bisect.insort')]
         ok = any(mut == [('%s.rotate' % me, ['-' + p]), ('%s.appendleft' % me, [item]), ('%s.rotate' % me, [p])] or
                  mut == [('%s.insert' % me, [p, item])] for p in pos) or \
@@ -246,10 +260,16 @@ def check_selfsig(rep, prog):
         first_ok = first_ok and any(f[0].startswith('in loop over') for f in s.facts)
         # the decisions on this path say: issued by the key the identity belongs to
         rel = path_relations(s)
-        mine = [k for k, v in rel.items() if v is True and k[0] == 'eq' and ('%s._parent.fingerprint' % me) in k[1] and
-                any(x in k[1] for x in ('%s.signer_fingerprint' % r, '%s.signer' % r))]
-        for k in mine:
-            sides[[x for x in k[1] if x.startswith(r + '.')][0][len(r) + 1:]] = True
+        mine = []
+        for k, v in rel.items():
+            if v is True and k[0] == 'eq' and ('%s._parent.fingerprint' % me) in k[1] and len(k[1]) == 2:
+                other = [x for x in k[1] if x != '%s._parent.fingerprint' % me][0]
+                fields = re.findall(r'%s\.(signer_fingerprint|signer)\b' % re.escape(r), other)
+                # the issuer named by the candidate itself: its issuer fingerprint, its issuer key id, or the first of them that is set
+                if fields and not re.sub(r'%s\.(signer_fingerprint|signer)\b|[()\s]|\bor\b' % re.escape(r), '', other):
+                    mine.append(k)
+                    for fld in fields:
+                        sides[fld] = True
         issuer_ok = issuer_ok and bool(mine)
     if not found:
         raise AnalysisError('PGPUID.selfsig: no path returns a signature')
@@ -315,6 +335,14 @@ def check_get_key_flags(rep, prog):
         r = render(s.ret)
         sel = recency_of(r[:-len('.key_flags')]) if r.endswith('.key_flags') else None
         if sel is None:
+            every = [b for b, coll in s.bound.items() if re.search(re.escape(b) + r'(?!\.?\d)', r) and
+                     order_of(_parse(coll) or ast.Constant(0)) == ('asc', '%s.self_signatures' % me)]
+            if every and not r.endswith('.key_flags'):
+                # a value computed from EVERY binding signature (union, accumulation) - not the one in effect
+                rep.violation('C16.5', 'PGPKey._get_key_flags', 'subkey: %s' % r,
+                              'a subkey\'s capability comes from its MOST RECENT binding signature, not from all of them', where=gk.where,
+                              expected='next(reversed(list(self.self_signatures))).key_flags', found=r)
+                continue
             raise AnalysisError('PGPKey._get_key_flags subkey arm: unrecognised selection %s' % r)
         rep.check(sel == ('recent', '%s.self_signatures' % me), 'C16.5', 'PGPKey._get_key_flags', 'subkey: %s' % r,
                   'a subkey\'s capability comes from its MOST RECENT binding signature, not the oldest', where=gk.where,
@@ -384,15 +412,33 @@ def check_key_form_predicates(rep, prog):
     ul = prog.method('pgpy.packet.packets', 'PrivKeyV4', 'unlocked')
     me = ul.params[0]
     km = '%s.keymaterial' % me
-    good = ['0 not in %s' % x for x in ('list(%s)' % km, km, 'tuple(%s)' % km, 'set(%s)' % km)] + \
-           ['not 0 in %s' % x for x in ('list(%s)' % km, km)] + \
-           ['all(EACH($1 in %s;($1 != 0)))' % km, 'not any(EACH($1 in %s;($1 == 0)))' % km]
+
+    def zero_free(text):
+        """True: the text says "no element of the key material is 0"; False: recognisably something else; None: not understood"""
+        t = alpha(_strip(_norm_each(text)))
+        if re.match(r'^all\(EACH\(\$1 in %s;\(\$1 != 0\)\)\)$' % re.escape(km), t) or \
+                re.match(r'^not any\(EACH\(\$1 in %s;\(\$1 == 0\)\)\)$' % re.escape(km), t):
+            return True
+        node = _parse(t)
+        neg = False
+        while isinstance(node, ast.UnaryOp) and isinstance(node.op, ast.Not):
+            node, neg = node.operand, not neg
+        if isinstance(node, ast.Constant):
+            return False
+        if isinstance(node, ast.Compare) and len(node.ops) == 1 and isinstance(node.ops[0], (ast.In, ast.NotIn)) and _int(node.left) == 0:
+            coll = node.comparators[0]
+            if isinstance(coll, ast.Call) and dotted(coll.func) in ('set', 'frozenset') and len(coll.args) == 1:
+                coll = coll.args[0]
+            o = order_of(coll)
+            if o is not None and o[1] == km:
+                return isinstance(node.ops[0], ast.NotIn) != neg
+        return None
     for s in Interp(prog, Scenario(bind={'%s.protected' % me: Const(True)}, inline=noinline)).run(ul):
-        r = alpha(_strip(render(s.ret)))
-        if r not in good and km in r and r not in ('0 in %s' % km, '0 in list(%s)' % km):
-            raise AnalysisError('PrivKeyV4.unlocked: unrecognised form %s' % r)
-        rep.check(r in good, 'C16.2', 'PrivKeyV4.unlocked', render(s.ret),
-                  'a protected key packet is unlocked iff none of its integers is the zero placeholder', where=ul.where, found=r)
+        z = zero_free(render(s.ret))
+        if z is None:
+            raise AnalysisError('PrivKeyV4.unlocked: unrecognised form %s' % render(s.ret))
+        rep.check(z, 'C16.2', 'PrivKeyV4.unlocked', render(s.ret),
+                  'a protected key packet is unlocked iff none of its integers is the zero placeholder', where=ul.where, found=render(s.ret))
     pr = prog.method('pgpy.packet.packets', 'PrivKeyV4', 'protected')
     me = pr.params[0]
     s2k = '%s.keymaterial.s2k' % me
@@ -453,9 +499,29 @@ def check_decrypt_delegation(rep, prog):
     rep.check(seen, 'C16.6', 'PGPKey.decrypt', 'subkey delegation arm', 'a primary key must find and use the addressed subkey', where=fi.where)
     en = prog.method('pgpy.pgp', 'PGPMessage', 'encrypters')
     me = en.params[0]
-    for s in Interp(prog, Scenario(inline=noinline)).run(en):
-        r = alpha(render(s.ret)).replace(' ', '')
-        forms = ('set(EACH($1in%s._sessionkeysifisinstance($1,PKESessionKey);$1.encrypter))' % me,
-                 '{$1.encrypterfor$1in%s._sessionkeysifisinstance($1,PKESessionKey)}' % me)
-        rep.check(r in forms, 'C16.6', 'PGPMessage.encrypters', render(s.ret),
-                  'the recipient set is the key ids of the public-key session-key packets of the message', where=en.where)
+    forms = ('set(EACH($1in%s._sessionkeysifisinstance($1,PKESessionKey);$1.encrypter))' % me,
+             '{$1.encrypterfor$1in%s._sessionkeysifisinstance($1,PKESessionKey)}' % me)
+    outs = Interp(prog, Scenario(inline=noinline)).run(en)
+    if all(alpha(render(s.ret)).replace(' ', '') in forms for s in outs):
+        rep.ok('C16.6', 'PGPMessage.encrypters', 'key ids of the public-key session-key packets')
+        return
+    # built by a loop: run it for one session-key packet and read the truth table - its recipient id is added to the returned
+    # set exactly when the packet is a public-key session-key packet
+    el = Sym('SK', nonnull=True)
+    outs = Interp(prog, Scenario(unroll={'%s._sessionkeys' % me: [el]}, inline=noinline)).run(en)
+    is_pk = ('call', 'isinstance', ('SK', 'PKESessionKey'))
+    ok, detail = True, None
+    for assign in keyaction.assignments(outs):
+        for s in [x for x in outs if keyaction.consistent(x, assign)]:
+            r = render(s.ret)
+            added = [c[1] for c in s.calls if c[0] in ('%s.add' % r, '%s.append' % r)]
+            whole = alpha(r).replace(' ', '')
+            if added not in ([], [['SK.encrypter']]) or (not added and whole not in ('set()', 'set([])', '[]', '{SK.encrypter}', 'set([SK.encrypter])')):
+                raise AnalysisError('PGPMessage.encrypters: result %s (added %s) not understood' % (r, added))
+            has = bool(added) or 'SK.encrypter' in whole
+            if assign.get(is_pk) is None:
+                ok, detail = False, 'the packet class is not tested'
+            elif has != assign.get(is_pk):
+                ok, detail = False, 'under [%s] the recipient id is %s' % (keyaction._show(assign), 'added' if has else 'left out')
+    rep.check(ok, 'C16.6', 'PGPMessage.encrypters', 'recipient ids collected by a loop',
+              'the recipient set is the key ids of the public-key session-key packets of the message', where=en.where, found=detail)
